@@ -761,7 +761,7 @@ where
         let reference_picture_resampling = if options
             .contains(PictureOption::REFERENCE_PICTURE_RESAMPLING)
             || previous_picture
-                .map(|p| p.format != format)
+                .map(|p| p.format.is_some() && format.is_some() && p.format != format)
                 .unwrap_or(false)
         {
             decode_rprp(reader)?
